@@ -159,8 +159,10 @@ func lockStr(m int) string {
 type LockClass struct {
 	Lock     int // LN, LR or LX at dispatch
 	Write    bool
-	Gates    map[string]bool // error strings returned by gates in the arm
-	Deferred int             // kind of deferred release (lkUnlock/lkRUnlock) or 0
+	Gates    map[string]bool   // error strings returned by gates in the arm
+	GateKind map[string]string // error string → shape of the guarding condition (follower, readonly, catchingup, other)
+	Returns  []string          // error strings/variables returned unconditionally by the arm
+	Deferred int               // kind of deferred release (lkUnlock/lkRUnlock) or 0
 	Clause   *strClause
 	Problem  string // non-empty: the arm could not be interpreted
 }
@@ -174,11 +176,12 @@ type CT struct {
 	DT       *strSwitch
 	Handlers map[*strClause][]*types.Func // handler functions called by each DT arm
 	GoCalls  map[*strClause][]*types.Func // functions started with `go` in the arm
+	DevOnly  map[*strClause]bool          // arm refuses the command unless Options.DevMode
 	Err      string
 }
 
 func (p *Program) buildCT() *CT {
-	ct := &CT{LTClass: map[*strClause]*LockClass{}, Handlers: map[*strClause][]*types.Func{}, GoCalls: map[*strClause][]*types.Func{}}
+	ct := &CT{LTClass: map[*strClause]*LockClass{}, Handlers: map[*strClause][]*types.Func{}, GoCalls: map[*strClause][]*types.Func{}, DevOnly: map[*strClause]bool{}}
 	ct.HIC = p.Func("internal/server", "Server", "handleInputCommand")
 	ct.Command = p.Func("internal/server", "Server", "command")
 	if ct.HIC == nil || ct.Command == nil {
@@ -227,6 +230,7 @@ func (p *Program) buildCT() *CT {
 		hs, gos := p.armCallees(ct.Command, c.Clause.Body)
 		ct.Handlers[c] = hs
 		ct.GoCalls[c] = gos
+		ct.DevOnly[c] = p.devOnlyArm(ct.Command, c.Clause.Body)
 	}
 	return ct
 }
@@ -258,7 +262,7 @@ func (p *Program) armCallees(fn *FuncInfo, body []ast.Stmt) (calls, gos []*types
 // state N, following fallthrough.
 func (p *Program) interpretLockArm(fn *FuncInfo, ss *strSwitch, c *strClause) *LockClass {
 	info := fn.Info()
-	lc := &LockClass{Lock: LN, Gates: map[string]bool{}, Clause: c}
+	lc := &LockClass{Lock: LN, Gates: map[string]bool{}, GateKind: map[string]string{}, Clause: c}
 	idx := c.Index
 	for {
 		cc := ss.Stmt.Body.List[idx].(*ast.CaseClause)
@@ -308,6 +312,7 @@ func (p *Program) interpretLockArm(fn *FuncInfo, ss *strSwitch, c *strClause) *L
 				// a gate: if <cond> { return writeErr("...") }
 				for _, g := range gateStrings(info, s) {
 					lc.Gates[g] = true
+					lc.GateKind[g] = gateCondKind(info, s.Cond)
 				}
 				// no lock operation may hide inside
 				ast.Inspect(s, func(n ast.Node) bool {
@@ -320,6 +325,8 @@ func (p *Program) interpretLockArm(fn *FuncInfo, ss *strSwitch, c *strClause) *L
 				if s.Tok == token.FALLTHROUGH {
 					fell = true
 				}
+			case *ast.ReturnStmt:
+				lc.Returns = append(lc.Returns, returnStrings(info, s)...)
 			default:
 				ast.Inspect(st, func(n ast.Node) bool {
 					if call, ok := n.(*ast.CallExpr); ok && p.serverMuOp(info, call) != lkNone {
@@ -415,4 +422,92 @@ func (ct *CT) classOf(cmd string) *LockClass {
 		return nil
 	}
 	return ct.LTClass[c]
+}
+
+// returnStrings: constant strings and package-level error variables in the results.
+func returnStrings(info *types.Info, r *ast.ReturnStmt) []string {
+	var out []string
+	for _, res := range r.Results {
+		ast.Inspect(res, func(n ast.Node) bool {
+			switch x := n.(type) {
+			case *ast.BasicLit:
+				if v, ok := constString(info, x); ok {
+					out = append(out, v)
+				}
+			case *ast.Ident:
+				if v, ok := info.Uses[x].(*types.Var); ok && v.Pkg() != nil && v.Parent() == v.Pkg().Scope() {
+					out = append(out, v.Name())
+				}
+			}
+			return true
+		})
+	}
+	return out
+}
+
+// gateCondKind classifies the condition of a gate by its resolved callees and
+// polarity: follower  = followHost() != ""
+//
+//	readonly  = readOnly()
+//	catchingup = followHost() != "" && !caughtUpOnce()
+func gateCondKind(info *types.Info, e ast.Expr) string {
+	e = ast.Unparen(e)
+	isCfgCall := func(x ast.Expr, name string) bool {
+		call, ok := ast.Unparen(x).(*ast.CallExpr)
+		if !ok {
+			return false
+		}
+		f := callee(info, call)
+		return f != nil && f.Name() == name && f.Pkg() != nil && f.Pkg().Path() == modPath+"/internal/server"
+	}
+	isEmptyStr := func(x ast.Expr) bool { v, ok := constString(info, x); return ok && v == "" }
+	follower := func(x ast.Expr) bool {
+		be, ok := ast.Unparen(x).(*ast.BinaryExpr)
+		if !ok || be.Op != token.NEQ {
+			return false
+		}
+		return isCfgCall(be.X, "followHost") && isEmptyStr(be.Y) || isCfgCall(be.Y, "followHost") && isEmptyStr(be.X)
+	}
+	notCaughtUp := func(x ast.Expr) bool {
+		ue, ok := ast.Unparen(x).(*ast.UnaryExpr)
+		return ok && ue.Op == token.NOT && isCfgCall(ue.X, "caughtUpOnce")
+	}
+	switch {
+	case follower(e):
+		return "follower"
+	case isCfgCall(e, "readOnly"):
+		return "readonly"
+	}
+	if be, ok := e.(*ast.BinaryExpr); ok && be.Op == token.LAND {
+		if follower(be.X) && notCaughtUp(be.Y) || follower(be.Y) && notCaughtUp(be.X) {
+			return "catchingup"
+		}
+	}
+	return "other"
+}
+
+// devOnlyArm: the arm starts with `if !<...>.DevMode { ...; return }`, i.e. the
+// command does not exist unless the server runs in developer mode.
+func (p *Program) devOnlyArm(fn *FuncInfo, body []ast.Stmt) bool {
+	if len(body) == 0 {
+		return false
+	}
+	ifs, ok := body[0].(*ast.IfStmt)
+	if !ok {
+		return false
+	}
+	ue, ok := ast.Unparen(ifs.Cond).(*ast.UnaryExpr)
+	if !ok || ue.Op != token.NOT {
+		return false
+	}
+	dev := p.Field("internal/server", "Options", "DevMode")
+	if dev == nil || selField(fn.Info(), ue.X) != dev {
+		return false
+	}
+	n := len(ifs.Body.List)
+	if n == 0 {
+		return false
+	}
+	_, isRet := ifs.Body.List[n-1].(*ast.ReturnStmt)
+	return isRet
 }
